@@ -98,6 +98,7 @@ def check_C02(ctx, tier):
     A.rule_A_CODEC(ctx, ctx.repo)                 # ... and what is stored can be decoded by the session that needs it
     A.rule_A_RED_COPY(ctx, ctx.repo, ac, parts=('red',))     # ... also when the archive reached that session inside a pickled decorator (same format settings)
     A.rule_A_ABS(ctx, ctx.repo, ac)               # ... and under the same location whatever the working directory is by then
+    W.rule_W_SIBLING_INIT(ctx, ctx.repo)          # ... by either decorator module alike (an archive handed in as `cache=` is used, not copied)
     A.rule_A_RED_DERIVED(ctx, ctx.repo)           # ... under the file names its settings say, also in a handle rebuilt from a pickle (nothing derived is cached outside __state__)
     A.rule_A_WRITEALL(ctx, ctx.repo, ac)          # ... every dumped entry is really written (no "already there" shortcut decided on this handle's view)
     A.rule_A_NOCACHE(ctx, ctx.repo, ac)           # ... and read back from the store itself (a second decorator's handle sees it)
@@ -175,6 +176,7 @@ def check_C07(ctx, tier):
     _ac = A.Cache(ctx.repo, unroll=1 if tier == 'quick' else 2)
     A.rule_A_PUBFAIL(ctx, ctx.repo, _ac)   # a failed write-back never replaces or removes what is archived
     A.rule_A_ABS(ctx, ctx.repo, _ac)       # ... in the archive the function was given, whatever the working directory is when the eviction happens
+    W.rule_W_SIBLING_INIT(ctx, ctx.repo)   # ... through either decorator module (a persistent archive passed as `cache=` is not replaced by a copy)
     A.rule_A_GLOBROOT(ctx, ctx.repo)       # ... where the lister finds it again (the archive's own path is never read as a glob pattern)
     A.rule_A_PUB(ctx, ctx.repo, _ac, only_foreign=True)       # ... and is staged next to its target, so the publishing rename cannot fail for being on another file system (a swallowed EXDEV)
     A.rule_A_WRITEALL(ctx, ctx.repo, _ac)  # a dumped entry is written whatever the archive holds already
@@ -341,6 +343,7 @@ def check_C11(ctx, tier):
         W.rule_W_KEY(ctx, d, paths)                # every key computation hands state.ignore to _keygen
         W.rule_W_RED(ctx, d)                       # a copied / pickled decorator keeps the ignore spec as given
         W.rule_W_STATE(ctx, d, keys=('ignore',), allow_default=True)
+        W.rule_W_NEW(ctx, d, parts=('forward',), only=('ignore',))   # lru_cache(maxsize=None, ignore=...) hands the spec on to inf_cache
     RR.rule_W_KEY_keygen(ctx, ctx.repo)
     RR.rule_R_DEEP(ctx, ctx.repo)                  # an argument is rounded the same whatever other (ignored) arguments accompany it
     ctx.assume("which positions/names a given spec selects for a given signature (the index/name arithmetic of _keygen) is value-level and not decided")
@@ -362,6 +365,7 @@ def check_C19(ctx, tier):
     S.rule_S_IDENT(ctx, ctx.repo, parts=('optional',))   # a fixed argument is told from an open position without mistaking None for a marker
     G.rule_V_DOUBLESTAR(ctx, ctx.repo)             # a keyword the caller repeats overrides the partial's: never forwarded through two ** expansions
     G.rule_V_NAMESHAPE(ctx, ctx.repo)              # keyword names are compared, never judged by their spelling
+    G.rule_V_NONE_GIVEN(ctx, ctx.repo)             # an argument bound to None is given
     K.rule_K_OWN(ctx, ctx.repo)                    # signature() is free of cross-call state (a memoised argspec mutated in place changes later verdicts)
     ctx.assume("agreement of validate's individual binding checks with the interpreter (counting, partial bookkeeping) is value-level and not decided")
     return ('Necessary conditions for "validate/isvalid agree with Python\'s binding without calling the function": every rejection is a TypeError; '
@@ -482,6 +486,7 @@ def check_C04(ctx, tier):
     A.rule_A_ZSTREAM(ctx, ctx.repo)               # ... and compressed entries are decompressed whole
     A.rule_A_GETKEY(ctx, ctx.repo)                 # ... and lists it under the key it was stored with
     A.rule_A_LOCATION_VERBATIM(ctx, ctx.repo)      # ... at the location that was named, and no other
+    W.rule_W_SIBLING_INIT(ctx, ctx.repo)           # what a decorated function writes goes to the archive it was given, in klepto.safe as in klepto
     A.rule_A_SCHEMA(ctx, ctx.repo)                 # ... with the value written last (row order of the sqlite table)
     A.rule_A_GLOBAL(ctx, ctx.repo)                 # ... from the store, not from a process-wide table of objects read earlier (klepto/_pickle.py included)
     A.rule_A_PUBFAIL(ctx, ctx.repo, cache)         # ... and a store that failed (encode error, lost publish race) left the stored contents alone
